@@ -107,9 +107,10 @@ OnlyCompleteAccepted == Done => (o.accepted <=> c.corr = "none")
 (* block (TAS, fuel lo/nom/hi), a climb block (TAS, ROCD lo/nom/hi, fuel) and *)
 (* a descent block (TAS, ROCD, fuel); the model table gets three rows per     *)
 (* climb and cruise block and one per descent block, descent ROCD negative.   *)
-PtfCases == [nfl : 2..3, cruise_from : 1..2, k : {0, 1, 2}]
-PtfFl(n) == 100 * n + 50
-PtfRow(x, n) == [fl |-> PtfFl(n),
+\* the lowest level of a PTF file may be flight level 0 (as in the BADA files)
+PtfCases == [nfl : 2..3, cruise_from : 1..2, k : {0, 1, 2}, fl0 : {0, 30, 150}]
+PtfFlOf(x, n) == x.fl0 + 100 * (n - 1)
+PtfRow(x, n) == [fl |-> PtfFlOf(x, n),
                  cruise |-> IF n >= x.cruise_from THEN <<400 + 10 * n + x.k, 60 + n, 64 + n + x.k, 68 + n + 2 * x.k>> ELSE <<>>,
                  climb |-> <<300 + 10 * n, 5000 - 100 * n, 4000 - 100 * n - x.k, 3000 - 100 * n, 90 - n>>,
                  descent |-> <<350 + n, 1500 + 10 * n + x.k, 9 + n>>]
@@ -117,15 +118,16 @@ PtfRows(x) == [n \in 1..x.nfl |-> PtfRow(x, n)]
 \* expected table rows in PTF units: <<phase, FL, mass label, tas kt, rocd fpm, fuel kg/min>>
 Expected(x) ==
   UNION {
-    {<<"climb", PtfFl(n), "low", PtfRow(x, n).climb[1], PtfRow(x, n).climb[2], PtfRow(x, n).climb[5]>>,
-     <<"climb", PtfFl(n), "nominal", PtfRow(x, n).climb[1], PtfRow(x, n).climb[3], PtfRow(x, n).climb[5]>>,
-     <<"climb", PtfFl(n), "high", PtfRow(x, n).climb[1], PtfRow(x, n).climb[4], PtfRow(x, n).climb[5]>>,
-     <<"descent", PtfFl(n), "nominal", PtfRow(x, n).descent[1], -PtfRow(x, n).descent[2], PtfRow(x, n).descent[3]>>}
+    {<<"climb", PtfFlOf(x, n), "low", PtfRow(x, n).climb[1], PtfRow(x, n).climb[2], PtfRow(x, n).climb[5]>>,
+     <<"climb", PtfFlOf(x, n), "nominal", PtfRow(x, n).climb[1], PtfRow(x, n).climb[3], PtfRow(x, n).climb[5]>>,
+     <<"climb", PtfFlOf(x, n), "high", PtfRow(x, n).climb[1], PtfRow(x, n).climb[4], PtfRow(x, n).climb[5]>>,
+     <<"descent", PtfFlOf(x, n), "nominal", PtfRow(x, n).descent[1], -PtfRow(x, n).descent[2], PtfRow(x, n).descent[3]>>}
     \cup (IF n >= x.cruise_from
-          THEN {<<"cruise", PtfFl(n), "low", PtfRow(x, n).cruise[1], 0, PtfRow(x, n).cruise[2]>>,
-                <<"cruise", PtfFl(n), "nominal", PtfRow(x, n).cruise[1], 0, PtfRow(x, n).cruise[3]>>,
-                <<"cruise", PtfFl(n), "high", PtfRow(x, n).cruise[1], 0, PtfRow(x, n).cruise[4]>>}
+          THEN {<<"cruise", PtfFlOf(x, n), "low", PtfRow(x, n).cruise[1], 0, PtfRow(x, n).cruise[2]>>,
+                <<"cruise", PtfFlOf(x, n), "nominal", PtfRow(x, n).cruise[1], 0, PtfRow(x, n).cruise[3]>>,
+                <<"cruise", PtfFlOf(x, n), "high", PtfRow(x, n).cruise[1], 0, PtfRow(x, n).cruise[4]>>}
           ELSE {}) : n \in 1..x.nfl}
 PtfSpec == Start(PtfCases) /\ [][Step([rows |-> PtfRows(c), table |-> Expected(c)])]_vars
 RowCount == Done => Cardinality(o.table) = 4 * c.nfl + 3 * (c.nfl - c.cruise_from + 1)
+LowestLevelKept == Done => \E r \in o.table : r[2] = c.fl0
 =============================================================================
